@@ -310,4 +310,15 @@ def run(prog, rep, tier, repo):
             (rep.viol if bad else rep.ok)('parity', key, '; '.join(bad) if bad else
                                           'swap-sort: swap(i, perm[i]) repeated until perm[i] == i, one count per swap', site_of(f.body))
     rep.floor('parity', 1, 'ipiv_parity')
+
+    # ------------------------------------------------------------------ D8 tolerance of the Cholesky precondition
+    # Matrix::cholesky reads one triangle; its precondition must not accept a non-symmetric matrix at any scale.
+    from ..tol import check_tolerances
+    check_tolerances(prog, rep, 'symmetry-tolerance', [M + '::is_positive_definite', U + 'is_symmetric'])
+    rep.floor('symmetry-tolerance', 2, 'Matrix::is_symmetric, is_symmetric')
+
+    # ------------------------------------------------------------------ D9 scale consistency of every data-dependent branch
+    from ..tol import check_scale_guards
+    check_scale_guards(prog, rep, 'scale-guard', [D + 'lu::lu', M + '::lu', D + 'cholesky::try_cholesky', M + '::cholesky'])
+    rep.floor('scale-guard', 6, 'pivot search + pivot test in lu x2, pivot sign test in cholesky x2')
     return {}
